@@ -353,6 +353,39 @@ def add_concurrent(rnd, prog, p=0.12):
     return op
 
 
+def add_failed_op(rnd, prog, p=0.12, roles=None):
+    """With probability p one call of the history -- never the last one -- FAILS half-way: a worker dies before or
+    after one task of one of its pool.map calls (the other chunks finish, as on a real pool), or pool.map itself breaks.
+    The failed call has to raise; what the property promises for the LATER calls on the same sampler, files and
+    process is unchanged, so they are judged exactly as in a fault-free history (state left behind by a failed call)."""
+    if rnd.random() >= p or len(prog["ops"]) < 2:
+        return None
+    cfg = prog["config"]
+    cands = [o for o in prog["ops"][:-1]
+             if o.get("op") in ("rejection", "iterative", "mll") and not o.get("concurrent")
+             and o.get("pool", cfg.get("pool", {})).get("kind") == "sim" and (roles is None or o.get("role") in roles)]
+    if not cands:
+        return None
+    op = rnd.choice(cands)
+    f = {"kind": rnd.choice(["worker", "worker", "worker", "map"]), "op": op["id"], "map": rnd.choice([0, 0, 0, 1, 2]),
+         "task": rnd.choice([None, None, 0, 1, 3]), "when": rnd.choice(["before", "after"])}
+    prog.setdefault("faults", []).append(f)
+    op["injected_fault"] = f
+    return op
+
+
+def rebind_faults(prog):
+    """After ops were renumbered: the fault follows its op."""
+    for o in prog["ops"]:
+        if o.get("injected_fault"):
+            o["injected_fault"]["op"] = o["id"]
+
+
+def failed_as_injected(rec):
+    """The op carries an injected pool fault and raised with it on the chain."""
+    return bool(rec["op"].get("injected_fault")) and rec.get("raised") is not None and any("SIMFAULT" in (m or "") for _t, m in rec["raised"])
+
+
 def check_concurrent(dep, prop, probes):
     """Every call a second caller made in the middle of another call must return what the same call returns alone."""
     from . import c10
